@@ -1,18 +1,3 @@
-"""Per-property text for MANIFEST.json (generated by bin/gen-manifest; the registry in props.py decides what is claimed)."""
-
-META = {
-    'C07': dict(
-        technique='exhaustive enumeration (2^16 half, 2^32 float patterns) against a bit-level IEEE binary16 reference model + F16C hardware differential; random lane-placement cases',
-        text='Complete enumeration of both input domains on every run (quick and thorough), so for packHalf1x16/unpackHalf1x16 on this compiler/CPU the property is decided, not sampled; '
-             'the multi-component observers (packHalf2x16/4x16, packHalf<L>) are tied to the scalar pair by random lane-placement cases.',
-        note='Trusts the reference written in props/C07_half.cpp (double arithmetic on exactly representable values) and, as a second opinion, the F16C instructions; g++ -O2 build only.',
-        design='6/C07'),
-}
-META['C05'] = dict(
-    technique='exhaustive enumeration of 8/16-bit domains + structured/random 32/64-bit generation against loop-based reference models of the GLSL 4.20 definitions; syntax-only instantiation pre-pass',
-    text='Every value of int8/uint8/int16/uint16 crossed with every (offset,bits) pair is enumerated, so for those widths the property is decided on this compiler; 32/64-bit kernels are searched with '
-         'single-bit, run-of-ones, boundary and random patterns (no SMT equivalence: another technique). Scalar and vec1-4 overloads are both executed.',
-    note='Trusts the bit-by-bit loops in engine/ref/refint.hpp. usubBorrow result is a recorded known finding (pinned by the suite); its borrow flag and a weaker either-difference relation are still checked.',
-    design='6/C05')
-
+"""Words for MANIFEST.json live next to each spec (lib/specs/Cxx.py: META); this module only holds the defaults."""
 NOT_BUILT = 'check not built yet at this commit (work in progress; the design in DESIGN.md section 6 applies)'
+NA_REASONS = {}
